@@ -88,6 +88,9 @@ def check_case(case, fenced=True):
                 return ("refused:%s" % type(e).__name__, "%s %r -> %s: %s" % (style, text, type(e).__name__, e))
             except Exception as e:
                 S.session.rollback()
+                if lib.engine_limit(e):
+                    case["_stats"] = {"decided": 0, "undecided": 0, "engine_limit": 1}
+                    return None
                 return ("foreign:%s@%s" % (type(e).__name__, lib.innermost_frame(e)),
                         "%s %r -> %s: %s" % (style, text, type(e).__name__, str(e)[:300]))
     fences = known_ids(PROPERTY_ID) if fenced else ()
@@ -161,6 +164,7 @@ def run_task(task, seed, acc):
         acc.cls("rows_undecided", stats.get("undecided", 0))
         acc.cls("rows_selected", stats.get("selected", 0))
         acc.cls("rows_excluded_by_known_finding", stats.get("excluded_by_known_finding", 0))
+        acc.cls("filters_beyond_an_engine_limit", stats.get("engine_limit", 0))
         for c in c01.classes_of(t, case["rows"]):
             acc.cls(c)
         if r:
